@@ -105,7 +105,10 @@ def tla_cfg(spec):
     return {"n": n, "m": m, "k": spec.get("k", 1), "bases": [org for org, _ in regs], "dir": spec["dir"],
             "cbar": int(spec["kind"] == "axi_crossbar"), "aux": AUX, "mfree": mfree[:3], "sfree": sfree[:3],
             "mlens": mlens[:3], "mids": mids[:3],
-            "earlyw": int(spec.get("axi_earlyw", 0)), "xslave": int(spec.get("axi_xslave", 0))}
+            "earlyw": int(spec.get("axi_earlyw", 0)), "xslave": int(spec.get("axi_xslave", 0)),
+            # DUTs with an arbiter are judged under traffic with gaps unless the spec asks for back-to-back traffic
+            "gaps": int(spec.get("gaps", spec["kind"] in ("axi_arbiter", "axi_shared", "axi_crossbar")
+                                 and not spec.get("axi_b2b")))}
 
 
 NMO = 6
@@ -142,12 +145,15 @@ def describe(s):
         cls, s["n"], s["m"], "write" if s["dir"] == "w" else "read", s.get("k", 1),
         (", data before address" if s.get("axi_earlyw") else "") +
         (", other slave while outstanding" if s.get("axi_xslave") else "") +
-        (", back-to-back traffic" if s.get("axi_b2b") else ""))
+        (", back-to-back traffic" if s.get("axi_b2b") else "") + (", 2-bit ids" if s.get("idw", 1) > 1 else ""))
+
+
+WIDE = {"idw": 2, "idvals": [1, 2]}      # 2-bit ids, the two values in use differ in the upper bit
 
 
 def configs(tier):
-    """-> dict of lists of (spec, cfg): 'all' = DUTs without arbitration (every clause incl. Served),
-    'arb' = DUTs with an arbiter (Served is replaced by ServedIfGaps: see 'starve'),
+    """-> dict of lists of (spec, cfg): 'all' = DUTs without arbitration (any traffic), 'arb' = DUTs with an
+    arbiter (traffic with gaps, cfg gaps=1: back-to-back traffic starves a master, see the axi_b2b demonstrations),
     'demo' = one-DUT demonstrations of the listed findings (nofollowup)"""
     L = {"all": [], "arb": [], "demo": []}
 
@@ -155,26 +161,44 @@ def configs(tier):
         L[group].append((spec, tla_cfg(spec)))
     for d in ("w", "r"):
         add("all", kind="axi_decoder", n=1, m=2, dir=d, k=1, sfree=[0, 1])
+        # k=2: request and response in the same cycle (2-beat bursts only)
+        add("all", kind="axi_decoder", n=1, m=2, dir=d, k=2, sfree=[1, 0], mlens=[1])
         add("arb", kind="axi_arbiter", n=2, m=1, dir=d, k=1, mfree=[1, 0])
-        add("arb", kind="axi_shared", n=2, m=2, dir=d, k=1, mfree=[1, 0], sfree=[0, 1])
+        add("arb", kind="axi_shared", n=2, m=2, dir=d, k=1, mfree=[1, 0], sfree=[0, 1], mids=[1, 0])
     # the behaviours the property lists explicitly and the interconnect does not support
     add("demo", kind="axi_decoder", n=1, m=2, dir="w", k=1, sfree=[1, 0], axi_earlyw=1, nofollowup=True)     # data before address
     add("demo", kind="axi_decoder", n=1, m=2, dir="r", k=2, sfree=[1, 0], mlens=[2], mids=[2], axi_xslave=1,
         nofollowup=True)                                                                                     # other slave while outstanding
     add("demo", kind="axi_arbiter", n=2, m=1, dir="r", k=1, mfree=[0, 0], mlens=[1, 0], axi_b2b=1, nofollowup=True)  # starvation
     if tier == "thorough":
+        # ports with 2-bit ids (values 1 and 2): the interconnect's internal interfaces keep the default id_width=1
+        add("demo", kind="axi_shared", n=2, m=2, dir="r", k=1, mfree=[1, 0], sfree=[1, 0], axi_wideid=1, **WIDE, nofollowup=True)
         for d in ("w", "r"):
             add("all", kind="axi_p2p", n=1, m=1, dir=d, k=2, axi_earlyw=1, axi_xslave=1)
             add("all", kind="axi_decoder", n=1, m=2, dir=d, k=2, sfree=[1, 1])
+            add("arb", kind="axi_shared", n=2, m=2, dir=d, k=1, mfree=[1, 0], sfree=[0, 1])
+            add("all", kind="axi_decoder", n=1, m=3, dir=d, k=2 if d == "r" else 1, sfree=[1, 1, 0])
+            add("all", kind="axi_decoder", n=1, m=2, dir=d, k=2, sfree=[0, 1], **WIDE)
             add("arb", kind="axi_arbiter", n=2, m=1, dir=d, k=2, mfree=[1, 0])
             add("arb", kind="axi_arbiter", n=2, m=1, dir=d, k=1, mfree=[1, 1], mlens=[2, 2], mids=[0, 1])
-            add("arb", kind="axi_shared", n=2, m=2, dir=d, k=1, mfree=[0, 1], sfree=[1, 0])
+            add("arb", kind="axi_arbiter", n=3, m=1, dir=d, k=1, mfree=[1, 0, 0])
+            add("arb", kind="axi_arbiter", n=2, m=1, dir=d, k=2, mfree=[0, 1], **WIDE)
+            if d == "r":          # mirrored freedom (second master / first slave free): read direction only
+                add("arb", kind="axi_shared", n=2, m=2, dir=d, k=1, mfree=[0, 1], sfree=[1, 0])
+                add("arb", kind="axi_crossbar", n=2, m=2, dir=d, k=1, mfree=[0, 1], sfree=[1, 0])
             add("arb", kind="axi_shared", n=2, m=2, dir=d, k=2, mfree=[1, 0], sfree=[1, 0], mlens=[2, 1], mids=[1, 0])
+            add("arb", kind="axi_shared", n=2, m=2, dir=d, k=1, mfree=[1, 1], sfree=[1, 0], mlens=[2, 1], mids=[0, 1])
+            add("arb", kind="axi_shared", n=3, m=2, dir=d, k=1, mfree=[1, 0, 0], sfree=[0, 1], mids=[2 if d == "r" else 1, 0, 1])
             add("arb", kind="axi_crossbar", n=2, m=2, dir=d, k=1, mfree=[1, 0], sfree=[0, 1])
-            add("arb", kind="axi_crossbar", n=2, m=2, dir=d, k=1, mfree=[0, 1], sfree=[1, 0])
+            add("arb", kind="axi_crossbar", n=2, m=2, dir=d, k=2, mfree=[1, 0], sfree=[1, 0], mlens=[2, 1], mids=[1, 0])
+            add("arb", kind="axi_crossbar", n=2, m=2, dir=d, k=1, mfree=[1, 1], sfree=[1, 0], mlens=[1, 1], mids=[0, 1])
         add("demo", kind="axi_shared", n=2, m=2, dir="w", k=1, mfree=[1, 0], sfree=[1, 0], axi_earlyw=1, nofollowup=True)
+        add("demo", kind="axi_crossbar", n=2, m=2, dir="w", k=1, mfree=[1, 0], sfree=[1, 0], axi_earlyw=1, nofollowup=True)
         add("demo", kind="axi_shared", n=2, m=2, dir="r", k=2, mfree=[1, 0], sfree=[1, 0], mlens=[2, 1], mids=[1, 0],
             axi_xslave=1, nofollowup=True)
+        add("demo", kind="axi_shared", n=2, m=2, dir="w", k=1, mfree=[0, 0], sfree=[0, 0], mlens=[0, 1], axi_b2b=1,
+            nofollowup=True)
         add("demo", kind="axi_crossbar", n=2, m=2, dir="w", k=1, mfree=[0, 0], sfree=[0, 0], mlens=[1, 0], axi_b2b=1,
             nofollowup=True)
+        add("demo", kind="axi_crossbar", n=2, m=2, dir="w", k=1, mfree=[1, 0], sfree=[1, 0], axi_wideid=1, **WIDE, nofollowup=True)
     return L
